@@ -56,6 +56,7 @@ pub fn profile_cfg(profile: &str, content: &mut Rng) -> RunCfg {
             c.f_underfund = 100;
             c.f_reject_htlc = 80;
             c.f_clock_jump = 5;
+            c.f_stall = 60;
             c.max_lifetimes = 5;
         }
         "crashy" => {
@@ -66,6 +67,7 @@ pub fn profile_cfg(profile: &str, content: &mut Rng) -> RunCfg {
             c.f_part_fail = 300;
             c.f_response_lost = 400;
             c.f_rpc_write_fault = 20;
+            c.f_stall = 80;
             c.max_lifetimes = 8;
             c.n_hashes = 1;
             c.max_sets = 3;
@@ -151,6 +153,10 @@ pub fn profile_cfg(profile: &str, content: &mut Rng) -> RunCfg {
             c.f_part_fail = 500;
             c.f_pay_bad_outcome = 200;
             c.f_rpc_write_fault = 30;
+            c.f_crash = *content.pick(&[0u32, 0, 15, 30]);
+            c.f_stall = 350;
+            c.f_response_lost = 300;
+            c.max_lifetimes = 4;
             c.mpp_timeout = *content.pick(&[60u64, 600]);
         }
         "config" => config_profile(&mut c, content),
@@ -296,6 +302,9 @@ pub struct RandomSched {
     pub probe: bool,
     freeze_decided: bool,
     marked: bool,
+    /// RPC ids held back until the given main step (slow node).
+    stalled: Vec<(u64, u32)>,
+    stall_seen: u64,
 }
 
 impl RandomSched {
@@ -315,6 +324,8 @@ impl RandomSched {
             probe,
             freeze_decided: false,
             marked: false,
+            stalled: Vec::new(),
+            stall_seen: 0,
         }
     }
 
@@ -494,10 +505,40 @@ impl RandomSched {
             cands.push((Op::Feed { n }, 90));
         }
         // RPCs
+        if node.lifetime as u64 != self.stall_seen >> 32 {
+            self.stalled.clear();
+            self.stall_seen = (node.lifetime as u64) << 32;
+        }
+        if c.f_stall > 0 {
+            for r in node.rpcs.iter() {
+                if r.id > (self.stall_seen & 0xffff_ffff) {
+                    self.stall_seen = (self.stall_seen & !0xffff_ffff) | r.id;
+                    let k = super::oracle::rpc_kind(r.method, &r.params);
+                    let bookkeeping = matches!(
+                        k,
+                        super::oracle::RpcKind::MarkFailedAttempt
+                            | super::oracle::RpcKind::MarkFailedFree
+                            | super::oracle::RpcKind::MarkSucceededState
+                            | super::oracle::RpcKind::MarkSucceededAttempt
+                    );
+                    if bookkeeping && self.rng.permille(c.f_stall) {
+                        let until = self.main_steps + 4 + self.rng.below(45) as u32;
+                        self.stalled.push((r.id, until));
+                    }
+                }
+            }
+        }
         let mut oldest_seen = false;
         for (i, r) in node.rpcs.iter().enumerate() {
             let hix = Sim::hash_ix_of(&r.hash);
             if self.frozen(sim, hix) {
+                continue;
+            }
+            if self
+                .stalled
+                .iter()
+                .any(|(id, until)| *id == r.id && self.main_steps < *until)
+            {
                 continue;
             }
             match &r.state {
